@@ -362,6 +362,8 @@ def check_C12(ctx):
     ctx.model_must_hold(r, what='(mpq_mul / mpq_add / mpq_sub store sequences under every alias pattern: exact and canonical)')
     r = assume_model(ctx, 'Mpq2exp', {'W': 2, 'L': 4 if q else 5, 'NUMMAX': 9 if q else 15, 'NMAX': 9 if q else 13, 'Variant': '"ok"'}, timeout=3000)
     ctx.model_must_hold(r, what='(mpq_mul_2exp / mpq_div_2exp at limb level over one memory: skipped zero limbs, copy direction in place, shift, leftover count)')
+    b = ctx.build('default')
+    ctx.validate(ctx.run_driver(b, 'corners_qf', shards=8, extra='fam=q', timeout=900))      # EVERY mpq function of the table on corner-alphabet operands
     trace_drivers(ctx, [('c12', 16, 1500), ('corners_q', 16, 900), ('alias_qf', 4, 900)], pure_drivers=['c12'])
     return ctx.finish('model_checking',
         rule='R2: MpqOps = all canonical operand pairs with |num|,den<=K x all 27 identity triples x {mul,add,sub} through the transcribed store sequences; Mpq2exp = mord_2exp at limb level over one memory (every canonical operand of up to L limbs, every count, separate and in-place destination). R3/R1: add/sub/mul/div/inv/neg/abs/'
@@ -376,7 +378,8 @@ def check_C13(ctx):
     q = ctx.tier == 'quick'
     r = assume_model(ctx, 'MpfContract', {'P': 6 if q else 8}, timeout=3000)
     ctx.model_must_hold(r, what='(float accuracy/exactness predicates of SemF vs brute force on small dyadics)')
-    trace_drivers(ctx, [('c13', 16, 1500), ('c13s', 16, 1500), ('corners_f', 16, 1500), ('alias_qf', 4, 900), ('hist_qf', 8, 900), ('c13_inv', 8, 900)], pure_drivers=['c13', 'c13s', 'c13_inv'])      # c13_inv: operands constructed from a result on a limb boundary (carry out of the discarded limbs, boundary quotients)
+    ctx.validate(ctx.run_driver(ctx.build('default'), 'corners_qf', shards=8, extra='fam=f', timeout=900))      # EVERY mpf function of the table on corner-alphabet operands
+    trace_drivers(ctx, [('c13', 16, 1500), ('c13s', 16, 1500), ('corners_f', 16, 1500), ('alias_qf', 4, 900), ('hist_qf', 8, 900), ('c13_inv', 8, 900)], pure_drivers=['c13', 'c13s', 'c13_inv'])      # corners_qf: EVERY mpq/mpf function of the table on corner-alphabet operands      # c13_inv: operands constructed from a result on a limb boundary (carry out of the discarded limbs, boundary quotients)
     return ctx.finish('model_checking',
         rule='R2: MpfContract checks the accuracy/exactness predicates the trace specification applies (Close, AccurateQuot, AccurateSqrt, CopyOf) against brute-force rational '
              'arithmetic on all small dyadics. R3/R1: add/sub/mul/div/sqrt and _ui forms, set_q/set_z/set_d, exact functions, comparisons and conversions for destination and operand precisions '
